@@ -1,3 +1,36 @@
+import os
+import common
+
+# the handlers of vm/eval.go that lean/GPy/C01/Model.lean `exec` transliterates (+ the helpers and stack macros they use)
+HANDLERS = """do_POP_TOP do_ROT_TWO do_ROT_THREE do_DUP_TOP do_DUP_TOP_TWO do_UNARY_POSITIVE do_UNARY_NEGATIVE do_UNARY_NOT
+do_UNARY_INVERT do_BINARY_POWER do_BINARY_MULTIPLY do_BINARY_FLOOR_DIVIDE do_BINARY_TRUE_DIVIDE do_BINARY_MODULO do_BINARY_ADD do_BINARY_SUBTRACT
+do_BINARY_SUBSCR do_BINARY_LSHIFT do_BINARY_RSHIFT do_BINARY_AND do_BINARY_XOR do_BINARY_OR do_INPLACE_POWER do_INPLACE_MULTIPLY
+do_INPLACE_FLOOR_DIVIDE do_INPLACE_TRUE_DIVIDE do_INPLACE_MODULO do_INPLACE_ADD do_INPLACE_SUBTRACT do_INPLACE_LSHIFT do_INPLACE_RSHIFT do_INPLACE_AND
+do_INPLACE_XOR do_INPLACE_OR do_STORE_SUBSCR do_DELETE_SUBSCR do_UNPACK_EX do_RETURN_VALUE do_STORE_NAME do_DELETE_NAME
+do_UNPACK_SEQUENCE do_STORE_ATTR do_DELETE_ATTR do_LOAD_CONST do_LOAD_NAME do_BUILD_TUPLE do_BUILD_SET do_BUILD_LIST
+do_BUILD_MAP do_LOAD_ATTR do_COMPARE_OP do_JUMP_FORWARD do_POP_JUMP_IF_TRUE do_POP_JUMP_IF_FALSE do_JUMP_IF_TRUE_OR_POP do_JUMP_IF_FALSE_OR_POP
+do_LOAD_GLOBAL do_STORE_MAP do_LOAD_FAST do_STORE_FAST do_CALL_FUNCTION do_MAKE_FUNCTION do_BUILD_SLICE do_CALL_FUNCTION_VAR
+do_CALL_FUNCTION_KW do_CALL_FUNCTION_VAR_KW _make_function Vm.Call unpack_iterable Vm.setTopAndCheckErr Vm.POP Vm.PUSH
+Vm.TOP Vm.SECOND Vm.THIRD Vm.SET_TOP Vm.SET_SECOND Vm.SET_THIRD Vm.DROP Vm.DROPN
+Vm.EXTEND Vm.EXTEND_REVERSED Vm.STACK_LEVEL""".split()
+
+
+def pre(run):
+    """regenerate lean/GPy/C01/Generated.lean (stack operations of the modelled opcode handlers) from the working tree"""
+    exdir = os.path.join(common.ROOT, "extract", "stackops")
+    os.makedirs(common.WORK, exist_ok=True)
+    binp = os.path.join(common.WORK, "stackops")
+    rc, out = common.sh(["go", "build", "-o", binp, "."], cwd=exdir, env=common.GOENV, timeout=600)
+    if rc != 0:
+        run.notes.append("stackops build failed: " + out[-300:])
+        run.cov["handler_table"] = "EXTRACTOR BUILD FAILED: " + out[-300:]
+        return
+    rc, out = common.sh([binp, common.REPO, os.path.join(common.LEAN, "GPy", "C01", "Generated.lean")] + HANDLERS, timeout=600)
+    rows = [l[4:] for l in out.splitlines() if l.startswith("ROW ")]
+    run.cov["handler_table"] = {"handlers": len(rows), "missing": [r.split(" ")[0] for r in rows if r.endswith(" MISSING")],
+                                "sample_rows": rows[:12]} if rc == 0 else "EXTRACTOR FAILED: " + out[-300:]
+
+
 CONFIG = {
     "rule": "case = one small module (1-3 statements) of the expression/assignment fragment, rendered WITHOUT redundant parentheses, every operand a probe ev(i, v) that logs its source position i; "
             "families: E1/E2 = all expression trees of depth <=2 (outer: every constructor and operator, inner: reduced alphabet) x payload patterns (distinct primes; falsy/str/None mixes) x a raising probe at every position; "
@@ -5,22 +38,29 @@ CONFIG = {
             "S1-S3/A1/Q = single, multiple, tuple, subscript, attribute targets; augmented assignment on name/subscript/attribute x all 12 operators; R = seeded random trees of depth 3-4; "
             "second round: L1-L4 = lambda/def with positional and keyword-only defaults (12 signatures incl. *args/**kw, every default a probe or a short-circuit form) created, created inside larger expressions, called with 15 argument shapes (positional, keyword, *, **), every depth-1 form as a function body evaluated at call time, two calls of one function object; "
             "K1/K2 = calls with keyword, * and ** arguments (6 callees x 3 positional x 4 keyword x 5 star x 5 double-star shapes, sampled in quick) alone and inside larger expressions / targets; U1 = starred targets (UNPACK_EX) x 10 right-hand sides; X1/X2 = 3-bound slices in load/store/augmented/del context and 216 literal bound triples on a str; DL = del of names, subscripts, attributes, tuples, pairs and sequences; R2 = seeded random programs over the extended fragment; "
+            "third round: I1 = both operands slices of ONE object (tuple, bytes, list, str of length 0..3; all (start, stop) pairs, negative / out-of-range / reversed bounds) against the object, its alias, t[:] and every other slice, each pair under is / is not / == / !=; "
+            "I2 = every comparison position (3- and 4-link chains mixing is / is not / == , under not, and, or, conditional expression, in / not in a display); I3 = 29 derivations of one object (alias, whole/partial/stepped slices, slices of slices, t+empty, empty+t, t*1, t*0, re-concatenation, a fresh equal display, *args round trip, argument passing, container round trip, or/and/conditional results) x 29; "
+            "I4 = inside a function on the *args tuple (LOAD_FAST operands, all slice pairs), two calls, parameters aliased; I5 = ints, strs, singletons, functions, instances, empty displays (28 x 28); X3 = extended slices a[i, lo:hi:st] in load/store/augmented/del context; "
             "compared per case: (a) byte code of the module instruction for instruction (R column), nested code objects (lambda/def bodies) are listed recursively with their parameter lists, (b) log of probe/container/call events, final values of r,x,y,z,u,v and the exception class (V column) between gpython, the model VM and the reference semantics; "
-            "non-trivial = at least two logged events; distinct = distinct input lines",
+            "non-trivial = at least two logged events, or a case of the identity families I1-I5 (their observable is the value of the comparison); distinct = distinct input lines",
     "trusted_base": [
         "Lean 4.33.0 kernel; axioms allowed: propext, Classical.choice, Quot.sound (audited per theorem on every run)",
         "lean/GPy/C01/Spec.lean: my transcription of Python's evaluation rules (language reference 6.x, 7.1, 7.2) as a definitional interpreter over abstract primitive operations",
         "lean/GPy/C01/Model.lean: hand transliteration of compile/compile.go (Expr, Stmt Assign/AugAssign/ExprStmt/Delete/FunctionDef, compileFunc + makeClosure without free variables, tupleOrList incl. UNPACK_EX, subscript, slice/buildSlice, callHelper incl. keywords/*/**, NameOp at module level and - for function bodies - LOAD_FAST/LOAD_GLOBAL) and vm/eval.go (do_* of the 38 model instructions = 64 opcodes used incl. _make_function, Vm.Call stack slicing, do_CALL_FUNCTION_VAR/KW/VAR_KW, do_UNPACK_EX, do_DELETE_*, do_BUILD_SLICE 2/3, RunFrame fetch loop); tied to /repo by the correspondence run only (compile tie: byte code equality; VM tie: same log/values/exception)",
         "lean/GPy/C01/Concrete.lean: Python's builtin operations on small ints/strs/tuples/lists/dicts (incl. extended slicing), Python's binding of call arguments to parameters (positional, keyword, *args, **kw, defaults; merging of * and ** at the call site), and the probe prelude of harness/c01.go; operations it does not vouch for are marked UNSPEC and such programs are compared at byte-code level only",
+        "lean/GPy/C01/Ident.lean: transliteration of vm/eval.go objectIs, of Go's slice expression s[i:j] on a slice header (pointer not advanced when the new capacity is 0) and of make (zero-size allocations share runtime.zerobase), and my reading of Python's object identity (language reference 3.1, 6.10.3) as the three-valued specIs; the places that create or share storage (BUILD_TUPLE, Tuple/Bytes + and *, step-1 slices returning sub-slices, stepped slices, the *args copy in function calls, bytes literals as headers into the lexer's buffer and constants shared per code object) are written into Concrete.lean by hand and tied by the run",
+        "lean/GPy/C01/Generated.lean is REGENERATED on every run by extract/stackops (go/ast: value-stack operations and py calls of the 83 modelled opcode handlers / stack macros of vm/eval.go in source order, locals renamed in binding order); lean/GPy/C01/HandlerFacts.lean holds the rows the model was written from; theorem handler_table_pinned equates them",
         "parser: grouping is checked through the real parser (source has no redundant parentheses and the byte code must equal that of the intended tree); the grammar itself belongs to C06",
         "harness/c01.go (prelude, disassembler, value rendering) and checks/common.py",
     ],
     "assumptions": [
         "gpython user classes do not dispatch __add__/__lt__/__bool__/__call__: operand order is observed through ev(i, v) calls and through __getitem__/__setitem__/__getattr__/__setattr__/__contains__ of probe classes",
-        "fragment: no comprehensions, no closures (a nested function capturing a parameter: LOAD_CLOSURE/LOAD_DEREF/MAKE_CLOSURE), no decorators/annotations, def bodies are a single return, no ExtSlice (a[i, j:k]), no list-syntax targets; these forms are neither modelled nor generated",
+        "fragment: no comprehensions, no closures (a nested function capturing a parameter: LOAD_CLOSURE/LOAD_DEREF/MAKE_CLOSURE), no decorators/annotations, def bodies are a single return (no STORE_FAST), no list-syntax targets; these forms are neither modelled nor generated",
         "a function call is one abstract primitive in the proofs (binding arguments to parameters, creating the frame); that the body of a called lambda/def is evaluated by the same rules is proved for its code object on its own (lambdaBody_correct) and tied by the run (model side runs the model VM on the body's code object, reference side the definitional interpreter)",
         "the qualified-name constant pushed before MAKE_FUNCTION is modelled by its last component only (harness strips '<outer>.<locals>.')",
-        "programs whose reference value would involve floats, bool arithmetic (C07-K01), tuple/list concatenation or ordering (C13/C17 territory), str %, 'is' on non-singletons, int-keyed dicts, sets' contents are compile-tie only",
+        "programs whose reference value would involve floats, bool arithmetic (C07-K01), list concatenation/repetition, tuple/list/bytes ordering (C13/C17 territory), str %, 'is' on function objects created by lambda/def, slice objects, sets or ints beyond int64 (*py.BigInt), int-keyed dicts, sets' contents are compile-tie only",
+        "identity: where Python leaves `a is b` to the implementation (two immutable objects of separate creation events with equal type and value: t[:] is t, t[1:] is t[1:], () is (), 5 is 2+3, 'ab' is 'a'+'b') the reference side takes the model's answer, so there the run compares implementation and model only; literal constants have unknown provenance for the reference (x = 5; x is 5 is implementation-defined); bytes literals are generated at module level only (constants are shared per code object); floats are outside the value universe (x is x for NaN was repaired by a fix commit and is asserted in vm/tests/ops.py)",
+        "ExtSlice: dimensions that are indices or 3-bound slices (a[i, lo:hi:st]) are inside the proved fragment as tuple-of-slice-objects and go through the real parser's ExtSlice path in the run; a 2-bound slice dimension (a[i, lo:hi], BUILD_SLICE 2 inside BUILD_TUPLE) is not generated",
         "py/arithmetic.go dispatch (dispatch_spec) is a separate small model tied by C07's correspondence run, not by this one",
     ],
     "exhaustive": True,
